@@ -62,6 +62,20 @@ def gen_scenario(seed, i):
     g = gen.WfGen(rng.fork("wf"), depth=rng.pick([1, 2, 2]), max_steps=3, max_branches=3, max_acts=3, p_if=10, p_branches=60,
                   needs=rng.chance(1, 4), mixed=rng.chance(1, 3), act_kinds=((gen.IRQ, 7), (gen.MSG, 1)), catches=rng.chance(1, 5))
     w = g.workflow("m1")
+    if i % 8 == 3:
+        # acts that end their own step from inside the workflow (acts.core.action with abort / error)
+        def walk(steps):
+            for st in steps:
+                acts = st.get("acts", [])
+                if acts and rng.chance(1, 2):
+                    k = rng.below(len(acts) + 1)
+                    # (skip / submit / next from inside close the step over its open acts: the orphan class already recorded for client actions)
+                    ev = rng.pick(["abort", "error"])
+                    acts.insert(k, {"id": g.fresh("a"), "uses": "acts.core.action", "params": {"action": ev, "options": {"ecode": "e1", "message": "from inside"}}})
+                    g.features.add("action-act")
+                for b in st.get("branches", []):
+                    walk(b.get("steps", []))
+        walk(w["steps"])
     ops = [["deploy", 0], ["start", "m1", {"pid": "p1", "x": rng.below(4), "y": rng.below(4)}]]
     ops += gen.random_history(rng.fork("h"), n=rng.range(6, 16), stepped_p=15,
                               actions=["next", "next", "next", "submit", "skip", "remove", "abort", "error", "next"])
